@@ -6,6 +6,8 @@ from __future__ import annotations
 import math
 import os
 
+from harness import stress
+
 os.environ.setdefault('TQDM_DISABLE', '1')   # the mappers wrap their chunk loops in tqdm; keep the check's output clean
 
 
@@ -15,24 +17,38 @@ def quiet_progress_bars():
     import functools
     import tqdm
     from torch_frame.data import mapper
+    import warnings
+    warnings.filterwarnings('ignore', message='The given NumPy array is not writable')
     if getattr(mapper.tqdm, 'func', None) is not tqdm.tqdm:
         mapper.tqdm = functools.partial(tqdm.tqdm, disable=True)
 
 STR_POOL = ['a', 'bb', '', 'ccc dd', 'é', '日本語', 'None', 'nan', '<NA>', ' x ', '😀', 'A\tB', '0', '1.5', 'NaN',
             'img/0.png', '/tmp/a b.jpg', 'ß', 'xyzxyzxy', '"q"', 'a\\b', 'null']
-ALPHABET = 'abcXYZ 019_-./éß日😀'
+# hardening round: sentinel look-alikes, trailing / embedded NUL, separators inside values, case pairs, prefixes
+STR_POOL += [x for x in stress.SPECIAL_STR if x not in STR_POOL] + [
+    '-1', '-1.0', '0.5', 'inf', 'ab\x00', 'ab', 'p.png\x00\x00', 'a\x00b', '\x00\x00', 'None\x00', 'label', 'label_prev',
+    'a|b', 'a,b', 'W', 'w', 'Zeta', 'alpha', '\n', 'a\nb', 'x\r\n', '\ufeffa', 'e\u0301', 'NaT', 'True']
+ALPHABET = 'abcXYZ 019_-./éß日😀' + '\x00,|\n'
 MISSING = ['none', 'nan', 'na']
 DTYPES = ['object', 'str', 'string']
 KINDS = ['text_emb', 'image_emb', 'tok_map', 'tok_list']
 KEYSETS = [['input_ids'], ['input_ids', 'attention_mask'], ['b', 'a', 'c']]
-INDEX_KINDS = ['range', 'offset', 'dup', 'shuffled', 'str', 'neg', 'const']
+INDEX_KINDS = ['range', 'offset', 'dup', 'shuffled', 'str', 'neg', 'const', 'sliced', 'bigint', 'float']
 
 
 # ----------------------------------------------------------------------------- generation
 
+ORDS = ['fixed', 'rev', 'rot']              # per-sentence (tok_list) / per-call (tok_map) key insertion order
+MTYPES = ['dict', 'ordered', 'userdict', 'proxy']   # the Mapping type the tokenizer stub returns
+ODTS = ['f32', 'f64', 'i64']                # dtype of the tensor an embedder stub returns
+
+
 def gen_cell(rng, p_missing=0.28):
     if rng.random() < p_missing:
-        return {'m': rng.choice(MISSING)}
+        c = {'m': rng.choice(MISSING)}
+        if c['m'] == 'nan' and rng.random() < 0.3:
+            c['np'] = 1                      # numpy.float64('nan') instead of float('nan')
+        return c
     if rng.random() < 0.6:
         return {'s': rng.choice(STR_POOL)}
     return {'s': ''.join(rng.choice(ALPHABET) for _ in range(rng.randint(0, 8)))}
@@ -47,8 +63,30 @@ def gen_bs(rng, n, allow_zero=False):
     return rng.randint(1, n + 1)
 
 
-def gen_col(rng, name, n, keys=None, allow_zero=False):
-    kind = rng.choice(KINDS)
+def gen_big_bs(rng, n):
+    """batch sizes around the thresholds and around the column length"""
+    pool = [None, 2, 16, 17, 64, 255, 256, 257, 1000, 1024, n - 1, n, n + 1, n // 2, n // 2 + 1, (n + 2) // 3]
+    if n <= 1100:
+        pool.append(1)
+    b = rng.choice(pool)
+    return b if b is None else max(1, b)
+
+
+def gen_variants(rng, col, p=0.3):
+    """off-default shapes of what the user callable returns (all legal for the documented interface)"""
+    if col['kind'] in ('text_emb', 'image_emb'):
+        if rng.random() < p:
+            col['odt'] = rng.choice(ODTS[1:])
+    else:
+        if len(col['keys']) > 1 and rng.random() < p:
+            col['ord'] = rng.choice(ORDS[1:])
+        if rng.random() < p:
+            col['mtype'] = rng.choice(MTYPES[1:])
+    return col
+
+
+def gen_col(rng, name, n, keys=None, allow_zero=False, kind=None):
+    kind = kind or rng.choice(KINDS)
     col = {'name': name, 'kind': kind, 'dtype': rng.choice(DTYPES),
            'cells': [gen_cell(rng) for _ in range(n)], 'bs': gen_bs(rng, n, allow_zero)}
     if kind in ('text_emb', 'image_emb'):
@@ -59,38 +97,186 @@ def gen_col(rng, name, n, keys=None, allow_zero=False):
             col['W'] = rng.randint(0, 4)          # one 2-D tensor per key: fixed width
         else:
             col['W'] = rng.choice([None, None, rng.randint(0, 4)])
-    return col
+    return gen_variants(rng, col)
 
 
-def gen_case(rng):
+def gen_dataset_opts(rng, case):
+    """ingredients of the Dataset path beyond the per-column configs"""
+    if rng.random() < 0.35:
+        case['extra'] = rng.sample(['num', 'emb', 'cat'], rng.randint(1, 2))   # other stypes next to the text columns
+    if rng.random() < 0.5:
+        case['order'] = rng.randrange(1 << 20)      # insertion order of col_to_stype / the config dicts / df columns
+    return case
+
+
+def gen_shared_case(rng):
+    """one config object (one stub) for ALL columns of the stype, passed instead of a per-column dict; some columns
+    carry the same raw values"""
+    n = rng.randint(1, 7)
+    m = rng.randint(2, 3)
+    names = rng.sample(['t0', 't1', 't2', 'a_text', 'Z', 'label', 'label_prev'], m)
+    proto = gen_col(rng, names[0], n, keys=rng.choice(KEYSETS))
+    cols = [proto]
+    for nm in names[1:]:
+        c = dict(proto, name=nm, dtype=rng.choice(DTYPES))
+        c['cells'] = list(proto['cells']) if rng.random() < 0.3 else [gen_cell(rng) for _ in range(n)]
+        cols.append(c)
+    case = {'path': 'dataset', 'n': n, 'index': rng.choice(INDEX_KINDS), 'cols': cols, 'iseed': rng.randrange(1 << 30),
+            'shared': True}
+    return gen_dataset_opts(rng, case)
+
+
+def gen_history_case(rng, n=None):
+    """ONE mapper object (one stub) applied to 2-3 series one after the other; all results are read only after the
+    last call, the series are compared with identically built twins afterwards"""
+    n = rng.randint(1, 6) if n is None else n
+    proto = gen_col(rng, 'c0', n)
+    cols = [proto]
+    for k in range(1, rng.randint(2, 3)):
+        c = dict(proto, name=f'c{k}', dtype=rng.choice(DTYPES))
+        r = rng.random()
+        if r < 0.25:
+            c['cells'] = list(proto['cells'])                       # the same raw values again
+        elif r < 0.5:
+            c['cells'] = list(reversed(proto['cells']))
+        else:
+            c['cells'] = [gen_cell(rng) for _ in range(n)]
+        cols.append(c)
+    return {'path': 'history', 'n': n, 'index': rng.choice(INDEX_KINDS), 'cols': cols, 'iseed': rng.randrange(1 << 30)}
+
+
+def gen_scale_case(rng, level):
+    """one of the sizes the property quantifies over is taken from the ladder of this stress level; the other
+    ingredients (missing cells, look-alikes, duplicates, index labelings, output formats) stay mixed in"""
+    dim = rng.choice(['rows', 'rows', 'rows', 'calls', 'cell', 'cols', 'keys', 'width', 'rows_hist'])
+    idx = rng.choice(INDEX_KINDS)
+    iseed = rng.randrange(1 << 30)
+    if dim in ('rows', 'calls', 'rows_hist'):
+        kind = rng.choice(KINDS)
+        cap = 65537 if kind in ('text_emb', 'image_emb') else 16385
+        if dim == 'calls':
+            cap = 1025
+        n = stress.pick_size(rng, level, cap)
+        if dim == 'rows_hist':
+            case = gen_history_case(rng, n=min(n, 4099))
+            for c in case['cols']:
+                c['bs'] = gen_big_bs(rng, case['n'])
+            for c in case['cols'][1:]:
+                c['bs'] = case['cols'][0]['bs']
+            case['scale'] = 'rows'
+            return case
+        col = gen_col(rng, 'c0', n, kind=kind)
+        col['bs'] = 1 if dim == 'calls' else gen_big_bs(rng, n)
+        if dim == 'calls' and rng.random() < 0.5:
+            col['bs'] = 2
+        # duplicates: a stretch of equal cells, so that a de-duplicating / caching callable path would show
+        if n > 20 and rng.random() < 0.5:
+            a = rng.randrange(n - 10)
+            for i in range(a, a + 10):
+                col['cells'][i] = col['cells'][a]
+        case = {'path': 'mapper', 'n': n, 'index': idx, 'cols': [col], 'iseed': iseed, 'scale': dim}
+        if col['bs'] and n * (n // col['bs']) > 5e7:
+            case['oracle_only'] = True     # the list model re-slices the column per chunk: judged by the direct oracle alone
+        return case
+    if dim == 'cell':
+        n = rng.randint(1, 6)
+        col = gen_col(rng, 'c0', n)
+        for _ in range(rng.randint(1, 2)):
+            L = stress.pick_size(rng, level, 65537)
+            unit = rng.choice(['ab', 'x', 'é ', '日', 'a\x00', '-1,', 'nan|'])
+            txt = (unit * (L // len(unit) + 1))[:L]
+            if rng.random() < 0.3:
+                txt = txt[:-1] + '\x00'
+            col['cells'][rng.randrange(n)] = {'s': txt}
+        if col['kind'] in ('text_emb', 'image_emb'):
+            col['odt'] = rng.choice(['f64', 'i64'])       # the stub's integers exceed 2**24
+        return {'path': 'mapper', 'n': n, 'index': idx, 'cols': [col], 'iseed': iseed, 'scale': dim}
+    if dim == 'cols':
+        n = rng.randint(1, 4)
+        m = stress.pick_size(rng, level, 1025)
+        keys = rng.choice(KEYSETS)
+        shared = rng.random() < 0.3
+        if shared:
+            proto = gen_col(rng, 't0', n, keys=keys)
+            cols = [dict(proto, name=f't{i}', cells=[gen_cell(rng) for _ in range(n)]) for i in range(m)]
+        else:
+            cols = [gen_col(rng, f't{i}', n, keys=keys) for i in range(m)]
+        case = {'path': 'dataset', 'n': n, 'index': idx, 'cols': cols, 'iseed': iseed, 'shared': shared, 'scale': dim}
+        return gen_dataset_opts(rng, case)
+    if dim == 'keys':
+        n = rng.randint(1, 5)
+        nk = stress.pick_size(rng, level, 1025)
+        keys = [f'k{i}' for i in range(nk)]
+        rng.shuffle(keys)
+        col = gen_col(rng, 'c0', n, keys=keys, kind=rng.choice(['tok_map', 'tok_list']))
+        if rng.random() < 0.5:
+            col['ord'] = rng.choice(ORDS[1:])
+        return {'path': 'mapper', 'n': n, 'index': idx, 'cols': [col], 'iseed': iseed, 'scale': dim}
+    # width of what the callable returns per row
+    n = rng.randint(1, 5)
+    col = gen_col(rng, 'c0', n)
+    wdt = stress.pick_size(rng, level, 16385)
+    if col['kind'] in ('text_emb', 'image_emb'):
+        col['D'] = wdt
+    else:
+        col['W'] = wdt
+    return {'path': 'mapper', 'n': n, 'index': idx, 'cols': [col], 'iseed': iseed, 'scale': dim}
+
+
+def volume(case):
+    """rough size of a case: output cells + characters"""
+    v = 0
+    for col in case['cols']:
+        per_row = col['D'] if 'D' in col else len(col['keys']) * (col['W'] if col['W'] is not None else 8)
+        v += len(col['cells']) * max(1, per_row) + sum(len(c.get('s', '')) for c in col['cells']) * (
+            1 if 'D' in col else len(col['keys']))
+    return v
+
+
+def gen_case(rng, level=0, scale=True):
+    r = rng.random()
+    if r < 0.02 and scale:
+        return gen_scale_case(rng, level)
+    if r < 0.02:
+        r = 0.5
+    if r < 0.10:
+        return gen_history_case(rng)
+    if r < 0.16:
+        return gen_shared_case(rng)
     path = 'dataset' if rng.random() < 0.4 else 'mapper'
     if path == 'mapper':
         n = 0 if rng.random() < 0.03 else rng.randint(1, 8)
         cols = [gen_col(rng, 'c0', n, allow_zero=True)]
     else:
         n = rng.randint(1, 7)
-        names = rng.sample(['t0', 't1', 't2', 'a_text', 'Z'], rng.randint(1, 3))
+        names = rng.sample(['t0', 't1', 't2', 'a_text', 'Z', 'label', 'label_prev', 'w', 'W'], rng.randint(1, 3))
         keys = rng.choice(KEYSETS)
         cols = [gen_col(rng, nm, n, keys=keys) for nm in names]
+        if len(cols) > 1 and rng.random() < 0.25:      # two columns with the same raw values, different callables
+            cols[1]['cells'] = list(cols[0]['cells'])
     case = {'path': path, 'n': n, 'index': rng.choice(INDEX_KINDS), 'cols': cols, 'iseed': rng.randrange(1 << 30)}
     if path == 'dataset':
         case['shared'] = False
+        gen_dataset_opts(rng, case)
     return case
 
 
 # ----------------------------------------------------------------------------- pandas rendering
 
 def py_cell(c):
+    import numpy as np
     import pandas as pd
     if 's' in c:
         return c['s']
+    if c['m'] == 'nan' and c.get('np'):
+        return np.float64('nan')
     return {'none': None, 'nan': float('nan'), 'na': pd.NA}[c['m']]
 
 
 def make_index(kind, n, iseed):
     import random
     r = random.Random(iseed)
-    if kind == 'range':
+    if kind in ('range', 'sliced'):
         return None
     if kind == 'offset':
         return list(range(5, 5 + n))
@@ -106,17 +292,37 @@ def make_index(kind, n, iseed):
         return [-(i + 1) for i in range(n)]
     if kind == 'const':
         return [0] * n
+    if kind == 'bigint':
+        return [2 ** 40 + 3 * i for i in range(n)]
+    if kind == 'float':
+        return [0.5 * i - 1.0 for i in range(n)]
     raise ValueError(kind)
+
+
+def _interleave(vals):
+    """vals at the even positions of a twice as long list (the odd ones hold other text)"""
+    out = []
+    for i, v in enumerate(vals):
+        out += [v, f'junk{i}']
+    return out
 
 
 def make_series(col, index_kind, n, iseed):
     import pandas as pd
     dt = {'object': object, 'str': 'str', 'string': 'string'}[col['dtype']]
-    ser = pd.Series([py_cell(c) for c in col['cells']], dtype=dt)
+    vals = [py_cell(c) for c in col['cells']]
+    if index_kind == 'sliced':       # a strided view of a longer column
+        return pd.Series(_interleave(vals), dtype=dt).iloc[::2]
+    ser = pd.Series(vals, dtype=dt)
     idx = make_index(index_kind, n, iseed)
     if idx is not None:
         ser.index = idx
     return ser
+
+
+def series_fingerprint(ser):
+    """what must be unchanged after a call: dtype, index labels and every cell (missing cells by kind)"""
+    return (str(ser.dtype), [repr(x) for x in ser.index.tolist()], [repr(v) for v in ser.tolist()])
 
 
 # ----------------------------------------------------------------------------- stub callables
@@ -139,6 +345,28 @@ def tok_g(keys, w, s, k):
     return (base + [0] * w)[:w]
 
 
+def key_order(mode, keys, s):
+    """insertion order of the keys of the mapping built for sentence s (re-implemented in Drivers/C16.lean)"""
+    if mode == 'rev':
+        return list(reversed(keys)) if len(s) % 2 == 1 else list(keys)
+    if mode == 'rot':
+        r = sum(ords(s)) % max(1, len(keys))
+        return list(keys[r:]) + list(keys[:r])
+    return list(keys)
+
+
+def as_mapping(mtype, pairs):
+    import collections
+    import types
+    if mtype == 'ordered':
+        return collections.OrderedDict(pairs)
+    if mtype == 'userdict':
+        return collections.UserDict(pairs)
+    if mtype == 'proxy':
+        return types.MappingProxyType(dict(pairs))
+    return dict(pairs)
+
+
 def _as_text(x):
     """the stubs must not crash on a non-string (that is exactly what the check wants to see and report)"""
     return x if isinstance(x, str) else repr(x)
@@ -153,11 +381,12 @@ class Recorder:
         self.containers.append(type(xs).__name__)
         self.calls.append(list(xs))
 
-    def summary(self):
+    def summary(self, a=0, b=None):
+        sel = self.calls[a:b]
         calls = [[x if isinstance(x, str) else {'non_str': type(x).__name__, 'repr': repr(x)} for x in c]
-                 for c in self.calls]
-        types = sorted({type(x).__name__ for c in self.calls for x in c})
-        return {'calls': calls, 'argtypes': types, 'containers': sorted(set(self.containers))}
+                 for c in sel]
+        types = sorted({type(x).__name__ for c in sel for x in c})
+        return {'calls': calls, 'argtypes': types, 'containers': sorted(set(self.containers[a:b]))}
 
 
 def make_stub(col, rec):
@@ -165,23 +394,30 @@ def make_stub(col, rec):
     kind = col['kind']
     if kind in ('text_emb', 'image_emb'):
         d = col['D']
+        odt = col.get('odt', 'f32')
 
         def emb(xs):
             rec.note(xs)
             rows = [emb_f(d, _as_text(x)) for x in xs]
-            return torch.tensor(rows, dtype=torch.float32).reshape(len(rows), d)
+            dt = {'f32': torch.float32, 'f64': torch.float64, 'i64': torch.int64}[odt]
+            if dt == torch.float32 and any(v > 2 ** 24 for r in rows for v in r[:3]):
+                dt = torch.float64       # the stub's output must be exactly the integers of emb_f
+            return torch.tensor(rows, dtype=dt).reshape(len(rows), d)
         return emb
     keys, w = col['keys'], col['W']
+    mode, mtype = col.get('ord', 'fixed'), col.get('mtype', 'dict')
     if kind == 'tok_map':
         def tok(xs):
             rec.note(xs)
-            return {k: torch.tensor([tok_g(keys, w, _as_text(x), k) for x in xs], dtype=torch.long).reshape(len(xs), w)
-                    for k in keys}
+            ks = key_order(mode, keys, _as_text(xs[0])) if len(xs) else list(keys)
+            return as_mapping(mtype, [(k, torch.tensor([tok_g(keys, w, _as_text(x), k) for x in xs],
+                                                       dtype=torch.long).reshape(len(xs), w)) for k in ks])
         return tok
 
     def tok(xs):
         rec.note(xs)
-        return [{k: torch.tensor(tok_g(keys, w, _as_text(x), k), dtype=torch.long) for k in keys} for x in xs]
+        return [as_mapping(mtype, [(k, torch.tensor(tok_g(keys, w, _as_text(x), k), dtype=torch.long))
+                                   for k in key_order(mode, keys, _as_text(x))]) for x in xs]
     return tok
 
 
@@ -238,6 +474,17 @@ def rows_of(out, col):
 
 # ----------------------------------------------------------------------------- running the real code
 
+def _canon_out(col, raw):
+    if raw is None:
+        return 'raises'
+    try:
+        if col['kind'] in ('text_emb', 'image_emb'):
+            return {'ok': met_repr(raw)}
+        return {'ok': [[k, mnt_repr(m)] for k, m in raw.items()]}
+    except Exception:
+        return 'raises'
+
+
 def run_mapper(col, ser, bs='case'):
     from torch_frame.data.mapper import EmbeddingTensorMapper, TextTokenizationTensorMapper
     quiet_progress_bars()
@@ -246,18 +493,54 @@ def run_mapper(col, ser, bs='case'):
     b = col['bs'] if bs == 'case' else bs
     try:
         if col['kind'] in ('text_emb', 'image_emb'):
-            out = {'ok': met_repr(EmbeddingTensorMapper(stub, b).forward(ser))}
+            raw = EmbeddingTensorMapper(stub, b).forward(ser)
         else:
-            d = TextTokenizationTensorMapper(stub, b).forward(ser)
-            out = {'ok': [[k, mnt_repr(m)] for k, m in d.items()]}
+            raw = TextTokenizationTensorMapper(stub, b).forward(ser)
     except Exception:
-        out = 'raises'
+        raw = None
     res = rec.summary()
-    res['out'] = out
+    res['out'] = _canon_out(col, raw)
     return res
 
 
+def run_history(case):
+    """one mapper object, one stub; forward() on each series in turn; every result is canonicalised only after the
+    last call; the series are compared with identically built twins"""
+    from torch_frame.data.mapper import EmbeddingTensorMapper, TextTokenizationTensorMapper
+    quiet_progress_bars()
+    col0 = case['cols'][0]
+    rec = Recorder()
+    stub = make_stub(col0, rec)
+    mapper = (EmbeddingTensorMapper(stub, col0['bs']) if col0['kind'] in ('text_emb', 'image_emb')
+              else TextTokenizationTensorMapper(stub, col0['bs']))
+    raws, spans, sers = [], [], []
+    for col in case['cols']:
+        ser = make_series(col, case['index'], case['n'], case['iseed'])
+        sers.append(ser)
+        a = len(rec.calls)
+        try:
+            raws.append(mapper.forward(ser))
+        except Exception:
+            raws.append(None)
+        spans.append((a, len(rec.calls)))
+    res = {}
+    for col, raw, (a, b), ser in zip(case['cols'], raws, spans, sers):
+        r = rec.summary(a, b)
+        r['out'] = _canon_out(col, raw)
+        twin = make_series(col, case['index'], case['n'], case['iseed'])
+        r['input_intact'] = series_fingerprint(ser) == series_fingerprint(twin)
+        res[col['name']] = r
+    return res
+
+
+def expected_strings(col, index_kind, n, iseed):
+    """str() of every cell as pandas hands it out (the property's "string rendering")"""
+    ser = make_series(col, index_kind, n, iseed)
+    return [c['s'] if 's' in c else str(v) for c, v in zip(col['cells'], ser.tolist())]
+
+
 def run_dataset(case):
+    import random
     import pandas as pd
     import torch_frame
     from torch_frame import stype
@@ -265,13 +548,18 @@ def run_dataset(case):
     from torch_frame.data import Dataset
     quiet_progress_bars()
     n = case['n']
+    sliced = case['index'] == 'sliced'
+    shared = bool(case.get('shared'))
     data, c2s, emb_cfg, img_cfg, tok_cfg, recs = {}, {}, {}, {}, {}, {}
+    rec0 = Recorder()
+    stub0 = make_stub(case['cols'][0], rec0) if shared else None
+    dts = {}
     for col in case['cols']:
-        ser = make_series(col, 'range', n, 0)
-        data[col['name']] = ser
-        rec = Recorder()
+        data[col['name']] = [py_cell(c) for c in col['cells']]
+        dts[col['name']] = {'object': object, 'str': 'str', 'string': 'string'}[col['dtype']]
+        rec = rec0 if shared else Recorder()
         recs[col['name']] = rec
-        stub = make_stub(col, rec)
+        stub = stub0 if shared else make_stub(col, rec)
         if col['kind'] == 'text_emb':
             c2s[col['name']] = stype.text_embedded
             emb_cfg[col['name']] = TextEmbedderConfig(text_embedder=stub, batch_size=col['bs'])
@@ -281,42 +569,102 @@ def run_dataset(case):
         else:
             c2s[col['name']] = stype.text_tokenized
             tok_cfg[col['name']] = TextTokenizerConfig(text_tokenizer=stub, batch_size=col['bs'])
-    df = pd.DataFrame(data)
+    for x in case.get('extra', []):       # other stypes next to the text columns (the embedding parent may be present)
+        if x == 'num':
+            data['x_num'], dts['x_num'] = [0.5 * i - 1 for i in range(n)], 'float64'
+            c2s['x_num'] = stype.numerical
+        elif x == 'cat':
+            data['x_cat'], dts['x_cat'] = [['u', 'v', '-1'][i % 3] for i in range(n)], object
+            c2s['x_cat'] = stype.categorical
+        elif x == 'emb':
+            data['a_emb'], dts['a_emb'] = [[0.5, float(i)] for i in range(n)], object
+            c2s['a_emb'] = stype.embedding
+    if sliced:                # the frame is a strided view of a twice as long frame
+        text = {c['name'] for c in case['cols']}
+        df = pd.DataFrame({k: pd.Series(_interleave(v) if k in text else [x for x in v for _ in (0, 1)], dtype=dts[k])
+                           for k, v in data.items()}).iloc[::2]
+    else:
+        df = pd.DataFrame({k: pd.Series(v, dtype=dts[k]) for k, v in data.items()})
+    if 'order' in case:       # insertion orders of the frame's columns, of col_to_stype and of the config dicts
+        r = random.Random(case['order'])
+        cols_order = list(df.columns)
+        r.shuffle(cols_order)
+        df = df[cols_order]
+
+        def shuf(d):
+            ks = list(d)
+            r.shuffle(ks)
+            return {k: d[k] for k in ks}
+        c2s, emb_cfg, img_cfg, tok_cfg = shuf(c2s), shuf(emb_cfg), shuf(img_cfg), shuf(tok_cfg)
     idx = make_index(case['index'], n, case['iseed'])
     if idx is not None:
         df.index = idx
     for col in case['cols']:   # the frame must really carry the dtype the case asks for
         want = {'object': 'object', 'str': 'str', 'string': 'string'}[col['dtype']]
         assert str(df[col['name']].dtype) == want, (str(df[col['name']].dtype), want)
+    if shared:                 # one config object for every column of the stype
+        emb_cfg = next(iter(emb_cfg.values()), None)
+        img_cfg = next(iter(img_cfg.values()), None)
+        tok_cfg = next(iter(tok_cfg.values()), None)
     try:
         ds = Dataset(df, c2s, col_to_text_embedder_cfg=emb_cfg or None, col_to_text_tokenizer_cfg=tok_cfg or None,
                      col_to_image_embedder_cfg=img_cfg or None).materialize()
         tf = ds.tensor_frame
     except Exception:
         return 'raises'
+    spans = {}
+    if shared:
+        # the shared stub saw the calls of all columns one column after the other; every column makes the same
+        # number of calls; a block is attributed to the not yet served column whose text it carries (columns with
+        # equal text are interchangeable), else to the remaining columns in order
+        m = len(case['cols'])
+        q, rem = divmod(len(rec0.calls), m)
+        left = [c['name'] for c in case['cols']]
+        want = {c['name']: expected_strings(c, 'range', n, 0) for c in case['cols']}
+        blocks = [(k * q, (k + 1) * q) for k in range(m)] if rem == 0 else [(0, len(rec0.calls))] + [(0, 0)] * (m - 1)
+        pending = []
+        for a, b in blocks:
+            flat = [x for c in rec0.calls[a:b] for x in c]
+            hit = next((nm for nm in left if want[nm] == flat), None)
+            if hit is None:
+                pending.append((a, b))
+            else:
+                spans[hit] = (a, b)
+                left.remove(hit)
+        for nm, ab in zip(left, pending):
+            spans[nm] = ab
+    sort_keys = any(c.get('ord', 'fixed') != 'fixed' for c in case['cols'])
     res = {}
     for col in case['cols']:
         name = col['name']
-        r = recs[name].summary()
-        if col['kind'] in ('text_emb', 'image_emb'):
-            j = tf.col_names_dict[torch_frame.embedding].index(name)
-            r['out'] = {'ok': met_column(tf.feat_dict[torch_frame.embedding], j)}
-        else:
-            j = tf.col_names_dict[stype.text_tokenized].index(name)
-            feat = tf.feat_dict[stype.text_tokenized]
-            r['out'] = {'ok': [[k, mnt_column(feat[k], j)] for k in feat.keys()]}
+        r = recs[name].summary(*spans.get(name, (0, None)))
+        try:
+            if col['kind'] in ('text_emb', 'image_emb'):
+                j = tf.col_names_dict[torch_frame.embedding].index(name)
+                r['out'] = {'ok': met_column(tf.feat_dict[torch_frame.embedding], j)}
+            else:
+                j = tf.col_names_dict[stype.text_tokenized].index(name)
+                feat = tf.feat_dict[stype.text_tokenized]
+                kms = [[k, mnt_column(feat[k], j)] for k in feat.keys()]
+                # the key order of the merged dict is that of the first converted column; with per-sentence key
+                # orders it is not a per-column quantity: compared as a set of keys
+                r['out'] = {'ok': sorted(kms, key=lambda km: km[0]) if sort_keys else kms}
+        except Exception:
+            r['out'] = 'raises'
         res[name] = r
     return res
 
 
 def model_request(col):
-    req = {'dtype': col['dtype'], 'cells': col['cells'], 'bs': col['bs'],
-           'kind': 'embed' if col['kind'] in ('text_emb', 'image_emb') else col['kind']}
+    req = {'dtype': col['dtype'], 'cells': [{k: v for k, v in c.items() if k in ('s', 'm')} for c in col['cells']],
+           'bs': col['bs'], 'kind': 'embed' if col['kind'] in ('text_emb', 'image_emb') else col['kind']}
     if req['kind'] == 'embed':
         req['D'] = col['D']
     else:
         req['keys'] = col['keys']
         req['W'] = col['W']
+        if col.get('ord', 'fixed') != 'fixed':
+            req['ord'] = col['ord']
     return req
 
 
